@@ -90,6 +90,33 @@ PROPS = {
         "note": "Trusted: the reference scan (written from the property statement), commit versions learned from ReadTs of a fresh transaction (single client).",
         "design_ref": "7/C06", "assumptions": E1_ASSUME,
     },
+    "C05": {
+        "engine": "dbsim", "level": "exploration", "budget": {"quick": 25, "thorough": 600},
+        "title": "A transaction never sees another transaction partially or late",
+        "technique": "deterministic simulation: 2-4 client tasks (writers committing multi-key transactions, readers re-reading by Get and iterator) and the commit worker interleaved by a seeded scheduler at yield sites inside oracle.readTs/newCommitTs/doneCommit, the watermarks and the commit pipeline; every read checked against the multi-version model at the reader's read timestamp",
+        "rule": "case = per-task transaction scripts + configuration (conflict detection, watermark window 0/2/4, memtable size) + seeded schedule; oracle over the recorded history: every Get/iterator result of a transaction with read timestamp r equals the committed state at r (commit versions from the txn.committs hook event, writes identified by unique values) overlaid with its own writes, and repeated reads are stable; distinct = distinct trace hash (includes the schedule); non-trivial = at least two successful commits and more than 20 scheduling steps",
+        "level_text": "Seeded search over interleavings at hook granularity with an executable multi-version model; sampling is the only feasible level for a property over all schedules of the real engine.",
+        "note": "Trusted: yield-site placement (a race between two instructions with no site between them is invisible), the model, commit versions reported by the hook event.",
+        "design_ref": "7/C05", "assumptions": E1_ASSUME + ["client tasks and engine workers are released one at a time at yield sites: oracle timestamps (readTs/newCommitTs/doneCommit), watermark Begin/Done/advance/rebuild, commit worker stages, request enqueue/ack, and harness-level call boundaries; return events are stamped when the task is next scheduled (intervals can only widen)"],
+    },
+    "C03": {
+        "engine": "dbsim", "level": "exploration", "budget": {"quick": 25, "thorough": 600},
+        "title": "Committed transactions are serializable and read their snapshot",
+        "technique": "deterministic simulation (same engine as C05) with conflict detection on: snapshot-read oracle plus missed-conflict oracle (a successful read-write commit at c must not have read a key another transaction committed in (readTs, c)) plus unique, real-time-ordered commit versions",
+        "rule": "as C05 with DetectConflicts=true and read-write transactions that read before writing; a missed conflict is the violation, spurious conflicts are allowed; phantoms (a range whose result would differ only by a key the scan never returned) are not demanded; distinct/non-trivial as C05",
+        "level_text": "Seeded search over interleavings with an executable serializability oracle (snapshot reads + first-committer-wins on read keys => serializable in commit order).",
+        "note": "Trusted: as C05.",
+        "design_ref": "7/C03", "assumptions": E1_ASSUME + ["client tasks and engine workers are released one at a time at yield sites: oracle timestamps (readTs/newCommitTs/doneCommit), watermark Begin/Done/advance/rebuild, commit worker stages, request enqueue/ack, and harness-level call boundaries; return events are stamped when the task is next scheduled (intervals can only widen)"],
+    },
+    "C04": {
+        "engine": "dbsim", "level": "exploration", "budget": {"quick": 25, "thorough": 600},
+        "title": "Transaction commit is atomic with strictly increasing commit versions",
+        "technique": "deterministic simulation (same engine as C05) with small MaxBatchCount (too-big errors), discards and conflicts: commit versions unique and real-time ordered; final all-version dump equals exactly the union of the writes of successful commits at their commit versions",
+        "rule": "as C05 plus MaxBatchCount in {default,3,4}; after the run the all-version dump of the default column family must contain every write of every successful commit at that commit's version and nothing else (a stored entry of a commit that reported conflict/too-big/blocked, or of a discarded transaction, is the violation); distinct/non-trivial as C05",
+        "level_text": "Seeded search over interleavings; oracle = exact accounting of stored versions against acknowledged commits.",
+        "note": "Trusted: as C05; the dump through NewInternalIterator + exact-version point reads.",
+        "design_ref": "7/C04", "assumptions": E1_ASSUME + ["client tasks and engine workers are released one at a time at yield sites: oracle timestamps (readTs/newCommitTs/doneCommit), watermark Begin/Done/advance/rebuild, commit worker stages, request enqueue/ack, and harness-level call boundaries; return events are stamped when the task is next scheduled (intervals can only widen)"],
+    },
 }
 
 # Merge per-engine registries (props_<engine>.py).
